@@ -209,15 +209,23 @@ def reqSendsCL (method : Bytes) (cl : Int) : Option Nat :=
   if cl > 0 then some cl.toNat else if cl < 0 then none
   else if method = mPOST ∨ method = mPUT ∨ method = mPATCH then some 0 else none
 
-/-- regular request fields written from the header map: own fields (host, content-length) and connection-specific ones are
+/-- user-agent: only the first value is written (regenerated flag) -/
+def uaVals (vs : List Bytes) : List Bytes := if C01H2Map.reqUAFirstOnly then vs.take 1 else vs
+
+/-- one entry of the header map in the request encoder: own fields (host, content-length) and connection-specific ones are
 skipped, of user-agent only the first value is written and an empty one is omitted -/
-def reqFieldsOf (h : HMap) : List Field :=
-  toFields (h.filterMap (fun e =>
-    if C01H2Map.reqOwnFields.contains e.1 || C01H2Map.reqConnSpecific.contains e.1 then none
-    else if e.1 = nUA then
-      let vs := if C01H2Map.reqUAFirstOnly then e.2.take 1 else e.2
-      if C01H2Map.reqUAOmitEmpty && vs.headD [] = [] then none else some (e.1, vs)
-    else some e))
+def reqEntry (e : Bytes × List Bytes) : Option (Bytes × List Bytes) :=
+  if C01H2Map.reqOwnFields.contains e.1 || C01H2Map.reqConnSpecific.contains e.1 then none
+  else if e.1 = nUA then
+    (if C01H2Map.reqUAOmitEmpty && (uaVals e.2).headD [] = [] then none else some (e.1, uaVals e.2))
+  else some e
+
+/-- regular request fields written from the header map -/
+def reqFieldsOf (h : HMap) : List Field := toFields (h.filterMap reqEntry)
+
+def clField : Option Nat → List Field
+  | some n => [(nCL, natBytes n)]
+  | none => []
 
 /-- a data buffer written as DATA frames: the flow-control window decides the cut points (`sizes`, any list) -/
 def splitBy (d : Bytes) : List Nat → List Bytes
@@ -250,9 +258,7 @@ def cliEncode (O : Oracles) (fromH2 : Bool) (V : String → Option Bytes) (remot
     match (i.hdr.vals nCL).head? with
     | some v => ((parseNat? v).getD 0 : Nat)
     | none => if fromH2 then (if bodyOpen then -1 else 0) else (if b.unknownLength then -1 else 0)
-  let clF : List Field := match reqSendsCL b.method cl with
-    | some n => [(nCL, natBytes n)]
-    | none => []
+  let clF : List Field := clField (reqSendsCL b.method cl)
   { pseudo := [(nAuthority, b.host), (nMethod, b.method), (nPath, path), (nScheme, b.scheme)],
     fields := reqFieldsOf i.hdr ++ clF,
     chunks := match i.data with
@@ -280,9 +286,16 @@ def cliDecode (w : Wire) : Inner :=
 
 def bodyAllowed (status : Nat) : Bool := !((100 ≤ status && status ≤ 199) || status == 204 || status == 304)
 
-def respFieldsOf (h : HMap) : List Field :=
-  toFields ((h.filter (fun e => !C01H2Map.respDropped.contains e.1)).map
-    (fun e => if e.1 = C01H2Map.respTEName then (e.1, e.2.filter (· = C01H2Map.respTEKeeps)) else e))
+/-- one entry of the response header map in write.go `encodeHeaders`: of transfer-encoding only "trailers" is written -/
+def respEntry (e : Bytes × List Bytes) : Bytes × List Bytes :=
+  if e.1 = C01H2Map.respTEName then (e.1, e.2.filter (· = C01H2Map.respTEKeeps)) else e
+
+/-- `MStream.WriteHeader` deletes the connection-specific fields (regenerated list) before the map is written -/
+def respKeep (e : Bytes × List Bytes) : Bool := !C01H2Map.respDropped.contains e.1
+
+def respFieldsOf (h : HMap) : List Field := toFields ((h.filter respKeep).map respEntry)
+
+def optField (n v : Bytes) : List Field := if v = [] then [] else [(n, v)]
 
 def srvEncode (isHead : Bool) (i : Inner) (win : List Nat) : Wire :=
   let status := (parseNat? i.a).getD 0
@@ -293,8 +306,7 @@ def srvEncode (isHead : Bool) (i : Inner) (win : List Nat) : Wire :=
   let end_ := i.data.isNone && i.trailers.isNone
   let endH := C01H2Map.respEndOnHeaders (end_ && endStreamAsModelled) isHead
   { pseudo := [(nStatus, i.a)],
-    fields := respFieldsOf (i.hdr.del nCL) ++ (if clen = [] then [] else [(nCL, clen)]) ++
-      (if C01H2Map.respContentType = [] then [] else [(nCT, C01H2Map.respContentType)]),
+    fields := respFieldsOf (i.hdr.del nCL) ++ optField nCL clen ++ optField nCT C01H2Map.respContentType,
     chunks := if endH then [] else match i.data with
       | some d => splitBy d win
       | none => [],
@@ -311,8 +323,8 @@ HTTP/2 encoder drops the connection-specific names, `Host` ↔ `:authority`, req
 /-- observed fasthttp rule (as in `Model/Http1Msg`): User-Agent, Content-Type and Server live in dedicated byte-slice fields
 where "empty" means "absent" — such a field with an empty value does not survive fasthttp's parser / printer -/
 def nServer : Bytes := [115, 101, 114, 118, 101, 114]
-def dropEmptySpecial (h : HMap) : HMap :=
-  h.filter (fun e => !((e.1 = nUA || e.1 = nCT || e.1 = nServer) && e.2.all (· = [])))
+def keepSpecial (e : Bytes × List Bytes) : Bool := !((e.1 = nUA || e.1 = nCT || e.1 = nServer) && e.2.all (· = []))
+def dropEmptySpecial (h : HMap) : HMap := h.filter keepSpecial
 
 def transcoderKeepsAll (name : String) : Bool :=
   (C01H2Map.transcoders.find? (fun e => e.1 == name)).map (fun e => e.2.1) == some true
